@@ -3,7 +3,7 @@
    code of reshape.go, flatten.go, squeeze.go, unsqueeze.go, shape.go as repaired), S = the
    ONNX text as written in Check/CheckC07.v (reshape_spec ... shape_spec). *)
 From Coq Require Import List ZArith Bool String.
-From V Require Import DType Tensor Case OpCheck ShapeOps CheckC07 ShapeOpsProofs C07Payload C07Numel.
+From V Require Import DType Tensor Case OpCheck ShapeOps CheckC07 ShapeOpsProofs C07Payload C07Numel C07Numel2.
 Import ListNotations.
 Open Scope Z_scope.
 
@@ -54,7 +54,11 @@ Proof. exact (squeeze_all_keeps_count t v). Qed.
 Theorem C07_reshape_count_partial t shp v :
   ~ In (-1) (pl shp) -> reshape_spec t shp = SMust [Some v] -> total v = total t.
 Proof. exact (reshape_plain_keeps_count t shp v). Qed.
-Print Assumptions C07_reshape_count_partial.
+(* the full Reshape statement: every request S accepts, inferred extent (-1) and copied (0) included *)
+Theorem C07_reshape_keeps_count t shp v :
+  reshape_spec t shp = SMust [Some v] -> total v = total t.
+Proof. exact (reshape_inferred_keeps_count t shp v). Qed.
+Print Assumptions C07_reshape_keeps_count.
 
 (* the known-finding class is real: the model (and the code) panic on it *)
 Example C07_shape_rank0_refuted :
